@@ -38,6 +38,12 @@ Qed.
 Lemma qleb_total a b : qleb a b = true \/ qleb b a = true.
 Proof. unfold qleb. rewrite !Z.leb_le. lia. Qed.
 
+Lemma two_in_nodup (L : list nat) : NoDup L -> 2 <= length L -> exists a b, In a L /\ In b L /\ a <> b.
+Proof.
+  intros N H. destruct L as [|a [|b r]]; cbn in H; try lia. exists a, b. split; [left; reflexivity|].
+  split; [right; left; reflexivity|]. inversion N as [|? ? Hn _]. intros ->. apply Hn. left. reflexivity.
+Qed.
+
 Section P.
 Variables (ny nx : nat) (conn8 : bool) (npix : nat) (data : list Z) (smask : list bool).
 Notation n := (npx ny nx).
@@ -290,14 +296,37 @@ Proof.
   - intros p Hp Q. apply C; [exact Hp|]. eapply qualifies_level; eauto.
 Qed.
 
+(* at least two different markers *)
+Definition Two (M : list nat) : Prop :=
+  exists p q, p < n /\ q < n /\ nth p M 0 <> 0 /\ nth q M 0 <> 0 /\ nth p M 0 <> nth q M 0.
+
+Lemma two_of_labels M : length M = n -> 2 <= length (fresh_labels M) -> Two M.
+Proof.
+  intros L H. destruct (two_in_nodup _ (fresh_NoDup M) H) as (a & b & Ha & Hb & Hab).
+  apply In_fresh in Ha. apply In_fresh in Hb. destruct Ha as [Na Ia], Hb as [Nb Ib].
+  destruct (In_nth _ _ 0 Ia) as (p & Hp & Ep). destruct (In_nth _ _ 0 Ib) as (q & Hq & Eq).
+  exists p, q. rewrite L in *. repeat split; congruence.
+Qed.
+Lemma labels_of_two M : length M = n -> Two M -> 2 <= length (fresh_labels M).
+Proof.
+  intros L (p & q & Hp & Hq & Np & Nq & Hne).
+  assert (Ia : In (nth p M 0) (fresh_labels M)) by (apply In_fresh; split; [exact Np|apply nth_In; lia]).
+  assert (Ib : In (nth q M 0) (fresh_labels M)) by (apply In_fresh; split; [exact Nq|apply nth_In; lia]).
+  change 2 with (length [nth p M 0; nth q M 0]). apply NoDup_incl_length.
+  - constructor; [intros [X|[]]; congruence|constructor; [intros []|constructor]].
+  - intros x [<-|[<-|[]]]; assumption.
+Qed.
+Lemma up_two t up : detect_nr (F t) = Some up -> Two up.
+Proof. intros E. destruct (detect_nr_spec _ _ E) as (A & _ & _ & D). apply two_of_labels; assumption. Qed.
+
 Lemma step_some M tl t' up : MInv M tl -> qleb tl t' = true -> In t' ths -> detect_nr (F t') = Some up ->
-  MInv (make_marker_segment ny nx conn8 (Some M) up) t'.
+  MInv (make_marker_segment ny nx conn8 (Some M) up) t' /\ (Two M -> Two (make_marker_segment ny nx conn8 (Some M) up)).
 Proof.
   intros HI Hle Hin' Eup. pose proof HI as (A & B & C).
   destruct (detect_nr_spec _ _ Eup) as (UA & UB & UC & _).
   unfold make_marker_segment. destruct (mms_markers M up A) as (KA & KB & KC).
   destruct (fold_left _ _ _) as [mk nw]. cbn [fst snd] in KA, KB, KC.
-  destruct nw; [|apply (step_none M tl t' HI Hle)].
+  destruct nw; [|split; [apply (step_none M tl t' HI Hle)|auto]].
   set (rp := fun p => repl M up (nth p M 0)).
   set (E := fun p q => nth q M 0 = nth p M 0 /\ (rp p = true -> nth q up 0 = nth p up 0)).
   assert (fgB : forall p, p < n -> fg mk p = Bset M up p) by (intros p Hp; apply KB; exact Hp).
@@ -347,22 +376,50 @@ Proof.
   { intros p q Hp Hq Bp Epq. destruct (ClsB p Hp Bp) as (s & _ & _ & _ & Cs).
     apply (pconn_inside (F s) mk); [|exact Hp|apply Cs; auto].
     intros x Hx Cx. rewrite fgB by exact Hx. apply (EB p x); auto. apply Cs; auto. }
-  split; [apply sl_length|]. split.
-  - intros p Hp Np. apply (sl_nonzero mk p Hp) in Np. pose proof Np as Bp. rewrite fgB in Bp by exact Hp.
-    destruct (ClsB p Hp Bp) as (s & S1 & S2 & S3 & S4). exists s. split; [exact S1|]. split; [exact S2|]. split; [exact S3|].
-    intros q Hq. rewrite <- (S4 q Hq). split.
-    + intros Eq. assert (Fq : fg mk q = true).
-      { apply (sl_nonzero mk q Hq). rewrite Eq. apply (sl_nonzero mk p Hp). exact Np. }
-      apply (Epath p q Hp Bp). apply (sl_same mk p q Hp Hq Np Fq). symmetry. exact Eq.
-    + intros Epq. pose proof (EB p q Hp Hq Bp Epq) as Bq.
-      symmetry. apply (sl_same mk p q Hp Hq Np); [rewrite fgB; auto|]. apply Ein; auto.
-  - intros p Hp Q. apply (sl_nonzero mk p Hp). rewrite fgB by exact Hp. unfold Bset.
-    assert (Np : nth p M 0 <> 0) by (apply C; [exact Hp|]; eapply qualifies_level; eauto).
-    apply andb_true_iff. split; [apply negb_true_iff, Nat.eqb_neq; exact Np|].
-    destruct (repl M up (nth p M 0)); [|reflexivity]. apply negb_true_iff, Nat.eqb_neq. apply UB; auto.
+  split.
+  {
+    split; [apply sl_length|]. split.
+    - intros p Hp Np. apply (sl_nonzero mk p Hp) in Np. pose proof Np as Bp. rewrite fgB in Bp by exact Hp.
+      destruct (ClsB p Hp Bp) as (s & S1 & S2 & S3 & S4). exists s. split; [exact S1|]. split; [exact S2|]. split; [exact S3|].
+      intros q Hq. rewrite <- (S4 q Hq). split.
+      + intros Eq. assert (Fq : fg mk q = true).
+        { apply (sl_nonzero mk q Hq). rewrite Eq. apply (sl_nonzero mk p Hp). exact Np. }
+        apply (Epath p q Hp Bp). apply (sl_same mk p q Hp Hq Np Fq). symmetry. exact Eq.
+      + intros Epq. pose proof (EB p q Hp Hq Bp Epq) as Bq.
+        symmetry. apply (sl_same mk p q Hp Hq Np); [rewrite fgB; auto|]. apply Ein; auto.
+    - intros p Hp Q. apply (sl_nonzero mk p Hp). rewrite fgB by exact Hp. unfold Bset.
+      assert (Np : nth p M 0 <> 0) by (apply C; [exact Hp|]; eapply qualifies_level; eauto).
+      apply andb_true_iff. split; [apply negb_true_iff, Nat.eqb_neq; exact Np|].
+      destruct (repl M up (nth p M 0)); [|reflexivity]. apply negb_true_iff, Nat.eqb_neq. apply UB; auto.
+  }
+  intros _.
+  (* a replaced label carries two different upper labels: their pixels end in different markers *)
+  symmetry in KC. apply existsb_exists in KC. destruct KC as (l & Hl & Rl).
+  apply In_fresh in Hl. destruct Hl as [Nl _]. unfold repl in Rl. apply Nat.leb_le in Rl.
+  unfold labels_in in Rl.
+  set (X := map (fun p => if nth p M 0 =? l then nth p up 0 else 0) (seq 0 n)) in Rl.
+  destruct (two_in_nodup _ (fresh_NoDup X) Rl) as (a & b & Ha & Hb & Hab).
+  assert (LX : length X = n) by (unfold X; rewrite map_length, seq_length; reflexivity).
+  assert (pick : forall v, In v (fresh_labels X) -> exists p, p < n /\ nth p M 0 = l /\ nth p up 0 = v /\ v <> 0).
+  { intros v Hv. apply In_fresh in Hv. destruct Hv as [Nv Iv]. destruct (In_nth _ _ 0 Iv) as (p & Hp & Ep).
+    rewrite LX in Hp. exists p. split; [exact Hp|]. unfold X in Ep.
+    rewrite (nth_map_seq (fun p => if nth p M 0 =? l then nth p up 0 else 0)) in Ep by exact Hp.
+    destruct (Nat.eqb_spec (nth p M 0) l); [auto|congruence]. }
+  destruct (pick a Ha) as (p1 & Hp1 & M1 & U1 & Na). destruct (pick b Hb) as (p2 & Hp2 & M2 & U2 & Nb).
+  assert (R1 : rp p1 = true). { unfold rp, repl. rewrite M1. apply Nat.leb_le. exact Rl. }
+  assert (R2 : rp p2 = true). { unfold rp, repl. rewrite M2. apply Nat.leb_le. exact Rl. }
+  assert (B1 : Bset M up p1 = true).
+  { unfold Bset. fold (rp p1). rewrite R1, M1, U1. apply andb_true_iff. split; apply negb_true_iff, Nat.eqb_neq; assumption. }
+  assert (B2 : Bset M up p2 = true).
+  { unfold Bset. fold (rp p2). rewrite R2, M2, U2. apply andb_true_iff. split; apply negb_true_iff, Nat.eqb_neq; assumption. }
+  assert (F1 : fg mk p1 = true) by (rewrite fgB; auto). assert (F2 : fg mk p2 = true) by (rewrite fgB; auto).
+  exists p1, p2. split; [exact Hp1|]. split; [exact Hp2|]. split; [apply sl_nonzero; auto|]. split; [apply sl_nonzero; auto|].
+  intros Eq. apply (sl_same mk p1 p2 Hp1 Hp2 F1 F2) in Eq. destruct (Epath p1 p2 Hp1 B1 Eq) as ([_ E2] & _).
+  specialize (E2 R1). congruence.
 Qed.
 
-Definition OInv (o : option (list nat)) (tl : Q) : Prop := match o with None => True | Some M => MInv M tl end.
+Definition OInv (o : option (list nat)) (tl : Q) : Prop :=
+  match o with None => True | Some M => MInv M tl /\ Two M end.
 
 Lemma mm_fold rest : forall o tl, (forall t, In t rest -> In t ths) -> sorted_q (tl :: rest) = true -> OInv o tl ->
   exists tl', OInv (fold_left (mm_step ny nx conn8 npix data smask) rest o) tl'.
@@ -372,14 +429,29 @@ Proof.
   apply (IH _ t'); [intros t Ht; apply Hin; right; exact Ht|exact Hs|].
   unfold mm_step. destruct (detect_nr (F t')) as [up|] eqn:Eup.
   - destruct o as [M|]; cbn [OInv].
-    + apply (step_some M tl t' up); auto. apply Hin. left. reflexivity.
-    + cbn [make_marker_segment]. apply up_inv; [apply Hin; left; reflexivity|exact Eup].
-  - destruct o as [M|]; cbn [OInv]; [|exact I]. eapply step_none; eauto.
+    + destruct HI as [HI H2].
+      destruct (step_some M tl t' up HI Hle (Hin t' (or_introl eq_refl)) Eup) as [X Y]. split; auto.
+    + cbn [make_marker_segment]. split; [apply up_inv; [apply Hin; left; reflexivity|exact Eup]|eapply up_two; eauto].
+  - destruct o as [M|]; cbn [OInv]; [|exact I]. destruct HI as [HI H2]. split; [eapply step_none; eauto|exact H2].
 Qed.
 End P.
 
 (* the final marker array: every marker is a whole connected component, with >= npixels pixels, of the
    foreground  data > t && footprint  of one of the levels t *)
+Lemma markers_inv_lemma ny nx conn8 npix data smask t0 rest M :
+  sorted_q (t0 :: rest) = true ->
+  make_markers ny nx conn8 npix data smask t0 rest = Some M ->
+  exists tl, MInv ny nx conn8 npix data smask (t0 :: rest) M tl /\ Two ny nx M.
+Proof.
+  intros Hs E. unfold make_markers in E.
+  destruct (mm_fold ny nx conn8 npix data smask (t0 :: rest) rest (detect_nr ny nx conn8 npix (level_fg ny nx data smask t0)) t0) as [tl HI].
+  - intros t Ht. right. exact Ht.
+  - exact Hs.
+  - destruct (detect_nr _ _ _ _ _) as [up|] eqn:Eup; [|exact I].
+    split; [apply up_inv; [left; reflexivity|exact Eup]|eapply up_two; eauto].
+  - rewrite E in HI. exists tl. exact HI.
+Qed.
+
 Lemma markers_spec_lemma ny nx conn8 npix data smask t0 rest M :
   sorted_q (t0 :: rest) = true ->
   make_markers ny nx conn8 npix data smask t0 rest = Some M ->
@@ -388,13 +460,19 @@ Lemma markers_spec_lemma ny nx conn8 npix data smask t0 rest M :
     exists t, In t (t0 :: rest) /\ qualifies ny nx conn8 npix (level_fg ny nx data smask t) p /\
       forall q, q < npx ny nx -> (nth q M 0 = nth p M 0 <-> pconn ny nx conn8 (level_fg ny nx data smask t) p q).
 Proof.
-  intros Hs E. unfold make_markers in E.
-  destruct (mm_fold ny nx conn8 npix data smask (t0 :: rest) rest (detect_nr ny nx conn8 npix (level_fg ny nx data smask t0)) t0) as [tl HI].
-  - intros t Ht. right. exact Ht.
-  - exact Hs.
-  - destruct (detect_nr _ _ _ _ _) as [up|] eqn:Eup; [|exact I]. apply up_inv; [left; reflexivity|exact Eup].
-  - rewrite E in HI. destruct HI as (A & B & _). split; [exact A|]. intros p Hp Np.
-    destruct (B p Hp Np) as (t & H1 & _ & H3 & H4). exists t. auto.
+  intros Hs E. destruct (markers_inv_lemma _ _ _ _ _ _ _ _ _ Hs E) as (tl & (A & B & _) & _).
+  split; [exact A|]. intros p Hp Np.
+  destruct (B p Hp Np) as (t & H1 & _ & H3 & H4). exists t. auto.
+Qed.
+
+(* whenever make_markers returns an array it carries at least two different marker labels *)
+Lemma markers_two_lemma ny nx conn8 npix data smask t0 rest M :
+  sorted_q (t0 :: rest) = true ->
+  make_markers ny nx conn8 npix data smask t0 rest = Some M ->
+  2 <= length (fresh_labels M).
+Proof.
+  intros Hs E. destruct (markers_inv_lemma _ _ _ _ _ _ _ _ _ Hs E) as (tl & (A & _) & T).
+  apply (labels_of_two ny nx); assumption.
 Qed.
 
 (* ---------- consequences for the marker array ---------- *)
@@ -757,4 +835,189 @@ Proof.
   rewrite G. split.
   - intros [H1 H2] t [<-|Hin]; auto.
   - intros H. split; [apply H; left; reflexivity|]. intros t Hin. apply H. right. exact Hin.
+Qed.
+
+(* ---------- the contrast rule ---------- *)
+Lemma qltb_Qlt a b : qltb a b = true <-> (a < b)%Q.
+Proof. unfold qltb, Qlt. apply Z.ltb_lt. Qed.
+
+(* the pruning test  flux / source_sum < contrast  is  flux < contrast * source_sum  for a positive
+   source_sum and the REVERSED inequality for a negative one *)
+Lemma contrast_rule_pos_lemma flux ssum c : (0 < ssum)%Z ->
+  (fv_ltq (frac_of flux ssum) c = true <-> (inject_Z flux < c * inject_Z ssum)%Q).
+Proof.
+  intros H. unfold frac_of. destruct (Z.eqb_spec ssum 0); [lia|]. cbn [fv_ltq]. rewrite qltb_Qlt.
+  destruct ssum as [|s|s]; try lia. destruct c as [cn cd].
+  unfold Qlt, Qdiv, Qmult, Qinv, inject_Z. cbn [Qnum Qden]. cbn. nia.
+Qed.
+Lemma contrast_rule_neg_lemma flux ssum c : (ssum < 0)%Z ->
+  (fv_ltq (frac_of flux ssum) c = true <-> (c * inject_Z ssum < inject_Z flux)%Q).
+Proof.
+  intros H. unfold frac_of. destruct (Z.eqb_spec ssum 0); [lia|]. cbn [fv_ltq]. rewrite qltb_Qlt.
+  destruct ssum as [|s|s]; try lia. destruct c as [cn cd].
+  unfold Qlt, Qdiv, Qmult, Qinv, inject_Z. cbn [Qnum Qden]. cbn. nia.
+Qed.
+(* source_sum = 0: only a negative flux (-inf) is below a contrast >= 0; 0/0 = NaN and +inf are not *)
+Lemma contrast_rule_zero_lemma flux c : (0 <= Qnum c)%Z ->
+  (fv_ltq (frac_of flux 0) c = true <-> (flux < 0)%Z).
+Proof.
+  intros Hc. unfold frac_of. cbn [Z.eqb]. destruct (Z.eqb_spec flux 0) as [->|N]; cbn [fv_ltq]; [split; [discriminate|lia]|].
+  destruct (Z.ltb_spec flux 0); cbn [fv_ltq]; split; auto; try discriminate; lia.
+Qed.
+
+Lemma one_rule_neg flux S cd : (S < 0)%Z -> (S < flux)%Z -> fv_ltq (frac_of flux S) (Z.pos cd # cd) = true.
+Proof.
+  intros H1 H2. apply contrast_rule_neg_lemma; [exact H1|]. unfold Qlt, Qmult, inject_Z. cbn [Qnum Qden].
+  rewrite Pos.mul_1_r. nia.
+Qed.
+Lemma one_rule_pos flux S cd : (0 < S)%Z -> (flux < S)%Z -> fv_ltq (frac_of flux S) (Z.pos cd # cd) = true.
+Proof.
+  intros H1 H2. apply contrast_rule_pos_lemma; [exact H1|]. unfold Qlt, Qmult, inject_Z. cbn [Qnum Qden].
+  rewrite Pos.mul_1_r. nia.
+Qed.
+
+Section ContrastOne.
+Variables (ny nx : nat) (data : list Z) (smask : list bool).
+Notation n := (npx ny nx).
+Notation dat := (dat data).
+Notation msk := (msk smask).
+Variable ws : list nat -> list nat.
+Variable contrast : Q.
+
+Lemma aw_exit fuel : forall m tr w, aw_run ny nx data smask ws contrast fuel m = (tr, Some w) ->
+  length (fresh_labels w) = 1 \/
+  existsb (fun f => fv_ltq f contrast)
+    (map (fun l => frac_of (label_flux ny nx data w l) (ssum ny nx data smask)) (fresh_labels w)) = false.
+Proof.
+  induction fuel as [|f IH]; intros m tr w E; cbn [aw_run] in E.
+  - destruct (length (fresh_labels (ws m)) =? 1) eqn:E1; [injection E as _ <-; left; apply Nat.eqb_eq; exact E1|].
+    destruct (existsb _ _) eqn:Ex; [discriminate|]. injection E as _ <-. right. exact Ex.
+  - destruct (length (fresh_labels (ws m)) =? 1) eqn:E1; [injection E as _ <-; left; apply Nat.eqb_eq; exact E1|].
+    destruct (existsb _ _) eqn:Ex; [|injection E as _ <-; right; exact Ex].
+    destruct (aw_run ny nx data smask ws contrast f _) as [tr' r'] eqn:Er. injection E as _ ->.
+    eapply IH; eauto.
+Qed.
+
+Lemma zsum_cons (f : nat -> Z) p l : zsum (map f (p :: l)) = (f p + zsum (map f l))%Z.
+Proof. reflexivity. Qed.
+Lemma zsum_filter_or (f : nat -> Z) (a b : nat -> bool) ps : (forall p, a p && b p = false) ->
+  zsum (map f (filter (fun p => a p || b p) ps)) = (zsum (map f (filter a ps)) + zsum (map f (filter b ps)))%Z.
+Proof.
+  intros H. induction ps as [|p ps IH]; [reflexivity|]. cbn [filter]. specialize (H p).
+  destruct (a p), (b p); cbn [orb andb] in *; try discriminate; rewrite ?zsum_cons, IH; lia.
+Qed.
+Lemma zsum_filter_false (f : nat -> Z) (a : nat -> bool) ps : (forall p, a p = false) -> zsum (map f (filter a ps)) = 0%Z.
+Proof. intros H. induction ps as [|p ps IH]; [reflexivity|]. cbn [filter]. rewrite H. exact IH. Qed.
+
+Lemma flux_partition_gen (w : list nat) ps L : NoDup L ->
+  zsum (map (fun l => zsum (map dat (filter (fun p => nth p w 0 =? l) ps))) L) =
+  zsum (map dat (filter (fun p => memb (nth p w 0) L) ps)).
+Proof.
+  induction L as [|l L IH]; intros N.
+  - symmetry. apply zsum_filter_false. reflexivity.
+  - inversion N as [|? ? Hn N']; subst. cbn [map zsum fold_right]. fold (zsum (map (fun l0 => zsum (map dat (filter (fun p => nth p w 0 =? l0) ps))) L)).
+    rewrite (IH N'). rewrite <- zsum_filter_or.
+    + reflexivity.
+    + intros p. destruct (Nat.eqb_spec (nth p w 0) l) as [->|]; [|reflexivity]. cbn.
+      destruct (memb l L) eqn:E; [|reflexivity]. apply memb_In in E. contradiction.
+Qed.
+
+Lemma flux_partition w : length w = n -> (forall p, p < n -> (nth p w 0 <> 0 <-> msk p = true)) ->
+  zsum (map (label_flux ny nx data w) (fresh_labels w)) = ssum ny nx data smask.
+Proof.
+  intros L H. unfold label_flux, ssum, mpix. rewrite (flux_partition_gen w (seq 0 n) _ (fresh_NoDup w)).
+  f_equal. f_equal. apply filter_ext_in. intros p Hp. apply in_seq in Hp.
+  destruct (memb (nth p w 0) (fresh_labels w)) eqn:E.
+  - apply memb_In, In_fresh in E. symmetry. apply H; [lia|tauto].
+  - apply memb_false in E. destruct (msk p) eqn:Mp; [|reflexivity]. exfalso. apply E, In_fresh.
+    split; [apply H; [lia|exact Mp]|apply nth_In; lia].
+Qed.
+
+Lemma zsum_ge (g : nat -> Z) s L : (forall x, In x L -> (s <= g x)%Z) -> (Z.of_nat (length L) * s <= zsum (map g L))%Z.
+Proof. induction L as [|a L IH]; intros H; [cbn; lia|]. cbn [map zsum fold_right length].
+  fold (zsum (map g L)). specialize (IH (fun x Hx => H x (or_intror Hx))). specialize (H a (or_introl eq_refl)). lia. Qed.
+Lemma zsum_le (g : nat -> Z) s L : (forall x, In x L -> (g x <= s)%Z) -> (zsum (map g L) <= Z.of_nat (length L) * s)%Z.
+Proof. induction L as [|a L IH]; intros H; [cbn; lia|]. cbn [map zsum fold_right length].
+  fold (zsum (map g L)). specialize (IH (fun x Hx => H x (or_intror Hx))). specialize (H a (or_introl eq_refl)). lia. Qed.
+
+(* contrast = 1 and source_sum <> 0: deblend_source never returns children (the children's fluxes add up to
+   source_sum because of the footprint guard, so two or more fractions cannot all be >= 1) *)
+Lemma contrast_one_lemma w1 w2 M ch : Qnum contrast = Zpos (Qden contrast) -> ssum ny nx data smask <> 0%Z ->
+  d_res (finish_source ny nx data smask ws contrast w1 w2 M) = DSome ch -> False.
+Proof.
+  intros Hc Hs E. unfold finish_source in E.
+  destruct (apply_watershed ny nx data smask ws contrast M) as [tr [w|]] eqn:Ea; [|discriminate].
+  destruct (negb _) eqn:G; [discriminate|]. apply negb_false_iff, andb_true_iff in G. destruct G as [GL G].
+  apply Nat.eqb_eq in GL.
+  destruct (length (fresh_labels w) =? 1) eqn:E1; [discriminate|]. apply Nat.eqb_neq in E1.
+  assert (Gp : forall p, p < n -> (nth p w 0 <> 0 <-> msk p = true)).
+  { intros p Hp. rewrite forallb_forall in G. assert (Hin : In p (seq 0 n)) by (apply in_seq; lia).
+    specialize (G p Hin). apply eqb_prop in G. unfold C06M_Model.msk in *. rewrite G, negb_true_iff, Nat.eqb_neq. reflexivity. }
+  pose proof (flux_partition w GL Gp) as HP.
+  unfold apply_watershed in Ea. destruct (aw_exit _ _ _ _ Ea) as [X|Ex]; [contradiction|].
+  set (S := ssum ny nx data smask) in *. set (Ls := fresh_labels w) in *.
+  assert (Hall : forall l, In l Ls -> fv_ltq (frac_of (label_flux ny nx data w l) S) contrast = false).
+  { intros l Hl. destruct (fv_ltq _ contrast) eqn:Ef; [|reflexivity].
+    assert (existsb (fun f => fv_ltq f contrast) (map (fun l => frac_of (label_flux ny nx data w l) S) Ls) = true).
+    { apply existsb_exists. eexists. split; [apply in_map; exact Hl|exact Ef]. }
+    congruence. }
+  destruct contrast as [cn cd]. cbn [Qnum Qden] in Hc. subst cn.
+  destruct (Z.lt_trichotomy S 0) as [Neg|[Z0|Pos]]; [|contradiction|].
+  - assert (Hle : forall l, In l Ls -> (label_flux ny nx data w l <= S)%Z).
+    { intros l Hl. specialize (Hall l Hl). destruct (Z.le_gt_cases (label_flux ny nx data w l) S); [assumption|].
+      assert (fv_ltq (frac_of (label_flux ny nx data w l) S) (Z.pos cd # cd) = true); [|congruence].
+      apply one_rule_neg; [exact Neg|lia]. }
+    pose proof (zsum_le (label_flux ny nx data w) S Ls Hle) as HS. rewrite HP in HS.
+    destruct Ls as [|a [|b r]]; cbn [length] in *; [cbn in HP; lia|lia|]. nia.
+  - assert (Hge : forall l, In l Ls -> (S <= label_flux ny nx data w l)%Z).
+    { intros l Hl. specialize (Hall l Hl). destruct (Z.le_gt_cases S (label_flux ny nx data w l)); [assumption|].
+      assert (fv_ltq (frac_of (label_flux ny nx data w l) S) (Z.pos cd # cd) = true); [|congruence].
+      apply one_rule_pos; [exact Pos|lia]. }
+    pose proof (zsum_ge (label_flux ny nx data w) S Ls Hge) as HS. rewrite HP in HS.
+    destruct Ls as [|a [|b r]]; cbn [length] in *; [cbn in HP; lia|lia|]. nia.
+Qed.
+End ContrastOne.
+
+(* ---------- the array handed back by apply_watershed inside deblend_source (C06_Model's [raw]) ---------- *)
+Lemma finish_raw_lemma ny nx data smask ws contrast w1 w2 M w :
+  d_raw (finish_source ny nx data smask ws contrast w1 w2 M) = Some w ->
+  exists tr, apply_watershed ny nx data smask ws contrast M = (tr, Some w).
+Proof.
+  unfold finish_source. destruct (apply_watershed ny nx data smask ws contrast M) as [tr [w'|]]; [|discriminate].
+  destruct (negb _); [intros [= <-]; eauto|]. destruct (_ =? 1); intros [= <-]; eauto.
+Qed.
+
+Lemma deblend_raw_lemma ny nx conn8 npix data smask ws contrast mode lin nonlin w :
+  (forall t0 rest, lin = t0 :: rest -> sorted_q lin = true) ->
+  (forall t0 rest, nonlin = t0 :: rest -> sorted_q nonlin = true) ->
+  ws_ok ny nx conn8 smask ws ->
+  d_raw (deblend_source ny nx conn8 npix data smask ws contrast mode lin nonlin) = Some w ->
+  length w = npx ny nx /\
+  (forall p, p < npx ny nx -> nth p w 0 <> 0 -> msk smask p = true) /\
+  (forall p, p < npx ny nx -> nth p w 0 <> 0 -> npix <= count_occ Nat.eq_dec w (nth p w 0)).
+Proof.
+  intros Hl Hn Hws E. unfold deblend_source in E.
+  destruct (mpix ny nx smask); [discriminate|]. destruct (smin ny nx data smask =? smax ny nx data smask)%Z; [discriminate|].
+  set (w1 := mode_eqb mode Exponential && (smin ny nx data smask <=? 0)%Z) in *.
+  set (mode1 := if w1 then Linear else mode) in *.
+  assert (Hfin : forall ths t0 rest M b, ths = t0 :: rest -> sorted_q ths = true ->
+            make_markers ny nx conn8 npix data smask t0 rest = Some M ->
+            d_raw (finish_source ny nx data smask ws contrast w1 b M) = Some w ->
+            length w = npx ny nx /\
+            (forall p, p < npx ny nx -> nth p w 0 <> 0 -> msk smask p = true) /\
+            (forall p, p < npx ny nx -> nth p w 0 <> 0 -> npix <= count_occ Nat.eq_dec w (nth p w 0))).
+  { intros ths t0 rest M b -> Hs HM Ef. destruct (finish_raw_lemma _ _ _ _ _ _ _ _ _ _ Ef) as [tr Ea].
+    destruct (raw_children_big_lemma _ _ _ _ _ _ _ _ _ _ _ _ _ Hs HM Hws Ea) as (A & B & C).
+    split; [exact A|]. split; [exact B|]. intros p Hp Np. apply C; assumption. }
+  destruct (mode_eqb mode1 Linear) eqn:Em.
+  - destruct lin as [|t0 rest]; [discriminate|]. cbn [markers_of] in E.
+    destruct (make_markers ny nx conn8 npix data smask t0 rest) as [M|] eqn:HM; [|discriminate].
+    cbn [negb andb] in E. eapply Hfin; eauto.
+  - destruct nonlin as [|t0 rest]; [discriminate|]. cbn [markers_of] in E.
+    destruct (make_markers ny nx conn8 npix data smask t0 rest) as [M|] eqn:HM; [|discriminate].
+    cbn [negb andb] in E. destruct (200 <? length (fresh_labels M)).
+    + destruct lin as [|l0 lrest]; [discriminate|]. cbn [markers_of] in E.
+      destruct (make_markers ny nx conn8 npix data smask l0 lrest) as [M2|] eqn:HM2; [|discriminate].
+      eapply Hfin; eauto.
+    + eapply Hfin; eauto.
 Qed.
